@@ -186,6 +186,20 @@ def check(run: Run) -> None:
             continue
         fo_ = ctx.analysis(e_.owner)
         on_line = False
+        bind9 = {}
+        if e_.owner is not ps:
+            # the collection sits in a helper that is handed the line: read its parameters as what the call in ps passes
+            from ..lib import call_sites_of as _cso9
+            from ..terms import subst as _subst9
+
+            for c9, call9, skip9 in _cso9(m, m.funcs.get(e_.owner.qual, e_.owner)):
+                fps_ = ctx.analysis(c9)
+                if (c9 is ps or c9.name == ps.name) and fps_.cfg.has_node(call9):
+                    for p9, a9 in zip(e_.owner.pos_params[skip9:], call9.args):
+                        bind9[("param", p9)] = strip_sites(fps_.term_of(a9))
+                    for kw9 in call9.keywords:
+                        if kw9.arg:
+                            bind9[("param", kw9.arg)] = strip_sites(fps_.term_of(kw9.value))
         for a, pol in Facts(fo_, e_.call).atoms:
             if not (pol and isinstance(a, ast.Compare) and len(a.ops) == 1 and isinstance(a.ops[0], ast.Eq)):
                 continue
@@ -196,6 +210,8 @@ def check(run: Run) -> None:
                     terms_.append(strip_sites(fo_.term_of(sd)))
                 except AnalysisError:
                     terms_.append(("top", "?"))
+            if bind9:
+                terms_ = [_subst9(t_, bind9) for t_ in terms_]
             tok_line = [t_ for t_ in terms_ if contains(t_, lambda q: len(q) == 3 and q[0] == "attr" and q[2] == "start")]
             src_line = [t_ for t_ in terms_ if contains(t_, lambda q: len(q) >= 3 and q[0] == "app" and isinstance(q[1], tuple) and len(q[1]) == 2 and q[1][0] == "global" and str(q[1][1]).endswith(("_get_sourcelines", "inspect.findsource", "inspect.getsourcelines"))) or contains(t_, lambda q: len(q) == 3 and q[0] == "attr" and q[2] == "co_firstlineno")]
             if tok_line and src_line:
